@@ -78,9 +78,11 @@ def inline_one(fd, gd, call_id):
         if len(rets) != 1 or not groot.get("c") or groot["c"][-1] != rets[0]:
             return _inline_condition_helper(fd, gd, call_id)
         value_root = rets[0]
+        # a helper that is ONE return statement is an expression: it may replace its call anywhere (nothing is moved in front)
+        pure = len([c for c in groot["c"] if gd["nodes"][c].get("k") != "NullStmt"]) == 1
         # climb to the enclosing statement through value-preserving positions only
         cur = call_id
-        while True:
+        while not pure:
             p_ = par_of.get(cur)
             if p_ is None:
                 return None
@@ -124,6 +126,15 @@ def inline_one(fd, gd, call_id):
         return False
     # a parameter bound to a non-trivial argument becomes a local of the same name, initialised with the argument
     as_local = {pn: not simple(args[k]) for k, pn in enumerate(params)}
+    if not void and pure:
+        SIDE = ("CallExpr", "CompoundAssignOperator", "StmtExpr", "AtomicExpr")
+        for k, pn in enumerate(params):
+            sub = [fn[x] for x in _subtree(fn, args[k])]
+            if any(n.get("k") in SIDE or (n.get("k") == "BinaryOperator" and n.get("op") == "=") or
+                   (n.get("k") == "UnaryOperator" and n.get("op") in ("++", "--")) for n in sub):
+                if sum(1 for n in gn if n.get("k") == "DeclRefExpr" and n.get("sc") == "param" and n.get("name") == pn) != 1:
+                    return None
+            as_local[pn] = False
 
     def clone_g(i):
         src = gn[i]
@@ -170,6 +181,12 @@ def inline_one(fd, gd, call_id):
         fn[body]["c"] = temps + list(fn[body]["c"])
     if void:
         fn[parent]["c"] = [body if c == call_id else c for c in fn[parent]["c"]]
+    elif pure:
+        ret_new = node_map[value_root]
+        val_new = fn[ret_new]["c"][0]
+        cp = par_of[call_id]
+        fn[cp]["c"] = [val_new if c == call_id else c for c in fn[cp]["c"]]
+        node_map[value_root] = val_new
     else:
         # the helper's statements go in front of the caller's statement; its returned expression takes the place of the call
         ret_new = node_map[value_root]
